@@ -32,6 +32,9 @@ def _check_iv(case, exact):
             summ.append("R")
             continue
         if st == "exc":
+            if exact == "loose" and isinstance(r, PE) and ival.tiny_features(exp):
+                summ.append("T")  # a one-ulp interval / gap closed by rounding and was refused: legitimate
+                continue
             viols.append(Viol("insertSpace-raised:" + type(r).__name__, f"{tag} on {entries} span ({lo},{hi}) raised {r!r}"))
             summ.append("X")
             continue
@@ -52,7 +55,7 @@ def _check_iv(case, exact):
             summ.append("!")
             continue
         summ.append(str(len(exp)))
-        if mode in ("stretch", "split"):
+        if mode in ("stretch", "split") and exact != "loose":
             n += 1
             st2, back, _ = call(r.eraseRegion, s0, s0 + d, "truncate", True)
             if st2 == "exc":
@@ -214,6 +217,19 @@ def parts(tier):
              "failure, inverse restores the label function within 1e-9" % (dS, D.DEC_DUR),
         bounds={"max_intervals": 3 if quick else 4, "oracle": "structural+1e-9"}, snippet=_snippet))
 
+    ugrid = tuple(sorted(D.ULP))
+
+    def gen_ulp():
+        for s_ in D.interval_sets(ugrid, 2 if quick else 3):
+            for e in ([D.labelled(s_, "abc")] + ([D.labelled(s_, "a")] if len(s_) > 1 else [])):
+                for s0 in ugrid:
+                    for d in (0.1, 0.5):
+                        yield (e, ugrid[0], ugrid[-1], s0, d)
+
+    ps.append(InputPart("insertSpace-intervals-ulp", gen_ulp, lambda c: _check_iv(c, "loose"),
+                        rule="interval sets and insertion points on the ulp-neighbour grid %s: an entry ending one ulp after s straddles it, one "
+                             "ending at s does not" % (ugrid,), bounds={"oracle": "structural+1e-9"}, snippet=_snippet))
+
     def gen_pt():
         for s in D.point_sets(D.unit_grid(5), 3 if quick else 4):
             p = D.labelled_points(s)
@@ -225,6 +241,10 @@ def parts(tier):
             for s0 in dS:
                 for d in D.DEC_DUR:
                     yield (p, 0.1, 2.3, s0, d)
+        for s in D.point_sets(ugrid, 3):
+            p = D.labelled_points(s, "x")
+            for s0 in ugrid:
+                yield (p, ugrid[0], ugrid[-1], s0, 0.5)
 
     ps.append(InputPart("insertSpace-points", gen_pt, lambda c: _check_pt(c, c[1] == 0.0),
                         rule="all point subsets x s x d (points at t <= s stay, later points move by d)",
